@@ -260,6 +260,17 @@ def one_split(ctx, Network, A, w, W, directed, v, p, cid, measures,
             n0 = mk(Network, A, w, W, directed)
         n1 = mk(Network, A2, w2, W2, directed)
         ctx.count("split_pairs")
+        Wb = None
+        if crosscheck and W is not None and ru.random() < 0.5:
+            # the network carries further link attributes besides "w"
+            Wb = W * 0.5 + (A != 0) * 1.0
+            if ru.random() < 0.5:
+                n0.set_link_attribute("w_b", Wb)
+            else:
+                # ("w" is not the attribute that was set last)
+                n0.set_link_attribute("a_first", Wb * 3.0)
+                n0.set_link_attribute("w_b", Wb)
+            ctx.count("split_with_several_link_attributes")
         if crosscheck:
             ok, sc = ctx.call(n0.splitted_copy, node=v, proportion=p)
             ctx.count("splitted_copy_crosschecked")
@@ -272,6 +283,10 @@ def one_split(ctx, Network, A, w, W, directed, v, p, cid, measures,
             elif W is not None and not close(sc.link_attribute("w"), W2,
                                              1e-12):
                 bad = "link-attribute-differs"
+            elif Wb is not None and not close(
+                    sc.link_attribute("w_b"), split(A, w, Wb, v, p)[2],
+                    1e-12):
+                bad = "second-link-attribute-differs"
             if bad:
                 ctx.violation(f"splitted_copy:{bad}",
                               {"edges": np.argwhere(A).tolist(), "v": v,
